@@ -28,7 +28,7 @@ import (
 //   | (l v...) | (m (x<key> v)...)
 
 func runesSexp(head string, s string) sx.S {
-	out := []sx.S{head}
+	out := []sx.S{head, sx.Hex(s)} // the raw bytes, then what Go's range decoding sees
 	for _, r := range s { // Go's decoding: invalid bytes arrive as U+FFFD
 		buf := make([]byte, 4)
 		n := utf8.EncodeRune(buf, r)
@@ -81,11 +81,7 @@ func wvOf(v interface{}) sx.S {
 }
 
 func runesString(l []sx.S) string {
-	var b strings.Builder
-	for _, r := range l {
-		b.WriteString(sx.Str(sx.List(r)[2]))
-	}
-	return b.String()
+	return sx.Str(l[0]) // the raw bytes
 }
 
 func goOfWv(v sx.S) interface{} {
@@ -230,7 +226,7 @@ func jsonStructure(v interface{}) interface{} {
 	case float32:
 		return json.Number(strconv.FormatFloat(float64(t), 'g', -1, 32))
 	case string:
-		return strings.ToValidUTF8(t, "�")
+		return string([]rune(t)) // every byte that is not valid UTF-8 becomes U+FFFD, as encoding/json does when it encodes
 	case []interface{}:
 		out := []interface{}{}
 		for _, x := range t {
@@ -240,7 +236,7 @@ func jsonStructure(v interface{}) interface{} {
 	case map[string]interface{}:
 		out := map[string]interface{}{}
 		for k, x := range t {
-			out[k] = jsonStructure(x)
+			out[string([]rune(k))] = jsonStructure(x)
 		}
 		return out
 	}
@@ -299,6 +295,11 @@ var textRunes = []rune{'a', 'b', 'Z', '0', '9', '_', ' ', '"', '\\', '/', '\n', 
 func genString(r *rand.Rand) string {
 	var b strings.Builder
 	for n := r.Intn(7); n > 0; n-- {
+		if r.Intn(25) == 0 {
+			// a byte sequence that is not valid UTF-8 (the JSON form must show U+FFFD for it)
+			b.WriteString([]string{"\xff", "\xc3", "\xe2\x82", "\xf0\x9f\x98", "\x80", "\xed\xa0\x80"}[r.Intn(6)])
+			continue
+		}
 		b.WriteRune(textRunes[r.Intn(len(textRunes))])
 	}
 	return b.String()
@@ -437,13 +438,23 @@ func c18Gen(r *rand.Rand, tier string) []Case {
 			tags = append(tags, "nontrivial")
 		}
 		tags = append(tags, fmt.Sprintf("indent%d", indent))
-		var hb bytes.Buffer
-		ggql.Sort = true
-		_ = ggql.WriteSDLValue(&hb, v, -1)
-		ggql.Sort = false
-		cases = append(cases, Case{ID: fmt.Sprintf("v%d", i), Input: sx.L("val", wvOf(v), sx.A(indent)), Tags: tags, Human: hb.String()})
+		cases = append(cases, Case{ID: fmt.Sprintf("v%d", i), Input: sx.L("val", wvOf(v), sx.A(indent)), Tags: tags, Human: safeSDL(v)})
 	}
 	return cases
+}
+
+// safeSDL renders a value for humans; the library may be broken, so recover.
+func safeSDL(v interface{}) (s string) {
+	defer func() {
+		if r := recover(); r != nil {
+			s = "<writer panicked>"
+		}
+	}()
+	var hb bytes.Buffer
+	ggql.Sort = true
+	_ = ggql.WriteSDLValue(&hb, v, -1)
+	ggql.Sort = false
+	return hb.String()
 }
 
 func c18Valid(input sx.S) bool {
@@ -451,7 +462,10 @@ func c18Valid(input sx.S) bool {
 	if sx.Head(input) != "val" || len(l) != 3 {
 		return false
 	}
-	_ = goOfWv(l[1])
+	// the rune lists must be what Go's range decoding yields for the raw bytes
+	if sx.String(wvOf(goOfWv(l[1]))) != sx.String(l[1]) {
+		return false
+	}
 	i := sx.Int(l[2])
 	return i == -1 || i == 0 || i == 2
 }
@@ -635,9 +649,7 @@ func c03Gen(r *rand.Rand, tier string) []Case {
 		seeds := c03Seeds[entry]
 		s := seeds[r.Intn(len(seeds))]
 		if entry == "value" && r.Intn(3) == 0 {
-			var hb bytes.Buffer
-			_ = ggql.WriteSDLValue(&hb, genValue(r, 0, false), []int{-1, 0, 2}[r.Intn(3)])
-			s = hb.String()
+			s = safeSDL(genValue(r, 0, false))
 		}
 		add(entry, mutateBytes(r, s), false, "mutated", "nontrivial")
 	}
